@@ -1,32 +1,18 @@
-"""Per-property check specifications (engines, shards, floors, evidence texts)."""
+"""Per-property check specifications: one lib/spec_CXX.py per property (see ENGINE_GUIDE.md)."""
+import glob
+import importlib
+import os
+import sys
 
-T = lambda q, t: {"quick": q, "thorough": t}
+_here = os.path.dirname(os.path.abspath(__file__))
+if _here not in sys.path:
+    sys.path.insert(0, _here)
 
 CHECKS = {}
+# properties not claimed, with the reason (kept current; see DESIGN.md section 4)
 NOT_APPLICABLE = {}
 
-CHECKS["C01"] = dict(
-    level="exploration",
-    technique="runtime invariant monitor over generated searches (all entry points + CLI process runs)",
-    level_text="Every list returned by every deciding entry point on tens of thousands of generated (database, query, options) cases, and "
-               "every result block printed by the built binary, is checked by one invariant monitor; per-path coverage floors (lexical, NLP, "
-               "fuzzy, cached, pipeline, CLI recovery) make a run that missed a path fail as incomplete. Exploration, not proof.",
-    level_note="Trusted: the harness generators, address-based entry identity, Go runtime. Only generated inputs are decided.",
-    engines=[
-        dict(name="searchinv", shards=T(16, 16), timeout=T(600, 3000)),
-        dict(name="searchinv-cli", shards=T(16, 16), timeout=T(600, 3000), needs_wtf=True),
-    ],
-    rule="case = (database, query, options) evaluated through SearchUniversal, Search, SearchWithPipelineOptions, the cached "
-         "and monitored wrappers, plus `wtf [search]` runs; every returned list passes through the result-invariant monitor "
-         "(len<=limit in force, entries are elements of the searched slice by address, no index twice, scores finite >=0, "
-         "non-increasing). Non-trivial = distinct (db, query, options) with a non-empty answer, keyed with the answering path.",
-    floors=T({"lexical": 200, "nlp": 200, "fuzzy": 100, "cached": 500, "pipeline": 100, "cli-recovery": 5, "cli-fuzzy": 5,
-              "distinct_nontrivial": 1000},
-             {"lexical": 2000, "nlp": 2000, "fuzzy": 1000, "cached": 5000, "pipeline": 1000, "cli-recovery": 50, "cli-fuzzy": 50,
-              "distinct_nontrivial": 10000}),
-    assumptions=[
-        "context / pipeline boosts are kept <= 1e6 so float overflow to +Inf is not manufactured by the generator",
-        "for Limit<=0 the bound asserted is max(10, default): a re-tuned default is not flagged, an unbounded answer is",
-        "deprecated SearchWithOptions/SearchWithFuzzy/SearchWithNLP are not deciding (unused by CLI and cache layer)",
-    ],
-)
+for _f in sorted(glob.glob(os.path.join(_here, "spec_C*.py"))):
+    _name = os.path.basename(_f)[:-3]
+    _m = importlib.import_module(_name)
+    CHECKS[_name[len("spec_"):]] = _m.SPEC
